@@ -557,11 +557,10 @@ def _glob(tree: Tree, base: str, pattern: str) -> List[str]:
 _WILD = ('*', '?', '[')
 
 
-def denoted_files(tree: Tree, suite_dir: str, line: str, for_suites: bool, wild: Sequence[str] = _WILD) -> List[str]:
+def denoted_files(tree: Tree, suite_dir: str, line: str, for_suites: bool) -> List[str]:
     """Reference semantics of one line of a [suites] / [cases] section (manual: "Each line consists of a single
     file name glob pattern", relative to the location of the suite file; a quoted name is taken literally).
     A name that starts with ABS_MARK is an absolute path: it denotes the same files wherever the suite file is.
-    `wild`: the characters that make an unquoted name a pattern (a parameter only for the seeded oracle error).
     -> list of rel paths in the order they are to be processed; raises Invalid."""
     text = line.strip()
     if text.startswith('['):
@@ -590,7 +589,7 @@ def denoted_files(tree: Tree, suite_dir: str, line: str, for_suites: bool, wild:
             raise ValueError('harness: line form outside the reference semantics: ' + line)
         name = name[len(ABS_MARK) + 1:]
         suite_dir = ''
-    if quoted or not any(w in name for w in wild):
+    if quoted or not any(w in name for w in _WILD):
         cands = [_norm((suite_dir + '/' + name) if suite_dir else name)]
         if not tree.exists(cands[0]):
             raise Invalid('does not exist')
@@ -622,7 +621,7 @@ class SuiteSpec:
         return self.conf + suite_text(self.suites, self.cases, self.broken or '')
 
 
-def expected_run(tree: Tree, specs: Dict[str, SuiteSpec], root: str, wild: Sequence[str] = _WILD):
+def expected_run(tree: Tree, specs: Dict[str, SuiteSpec], root: str):
     """Reference oracle for a hierarchy.  -> None if the hierarchy is invalid, else the list of
     (suite rel path, [case rel paths]) in the order in which they must be processed (sub-suites first, listing
     order, glob matches sorted).  A suite file reached twice (incl. the root, incl. cycles), a reference to a
@@ -644,14 +643,14 @@ def expected_run(tree: Tree, specs: Dict[str, SuiteSpec], root: str, wild: Seque
         d = s.rsplit('/', 1)[0] if '/' in s else ''
         subs = []
         for line in spec.suites:
-            for p in denoted_files(tree, d, line, True, wild):
+            for p in denoted_files(tree, d, line, True):
                 if p in seen:
                     raise Invalid('double inclusion')
                 seen.add(p)
                 subs.append(p)
         cases = []
         for line in spec.cases:
-            cases += denoted_files(tree, d, line, False, wild)
+            cases += denoted_files(tree, d, line, False)
         for p in subs:
             visit(p)
         order.append((s, cases))
